@@ -26,7 +26,8 @@ def gen_cubes(tier, seed):
         dtype = rng.choice(["int16", "float64", "float32"])
         base = rs.gamma(rng.choice([0.5, 2.0, 20.0]), rng.choice([5.0, 50.0]), T)
         ordinary = [float(round(v)) if dtype == "int16" else float(v) for v in base]
-        kinds = rng.sample(["ordinary", "allnodata", "allneg", "negnodata", "allzero", "manyzeros", "constant", "outlier_hi", "outlier_lo", "lowvar", "nopos_in_window", "twovals", "someneg", "someneg"], rng.randint(2, 5))
+        kinds = rng.sample(["ordinary", "allnodata", "allneg", "negnodata", "allzero", "manyzeros", "constant", "outlier_hi", "outlier_lo", "lowvar", "nopos_in_window", "twovals", "someneg", "someneg"]
+                           + (["nanzeros", "nanzeros", "somenan"] if dtype != "int16" else []), rng.randint(2, 5))
         if "ordinary" not in kinds:
             kinds[0] = "ordinary"
         st, sp = (0, T) if rng.random() < 0.5 else (0, max(2, T // 2))
@@ -66,6 +67,18 @@ def gen_cubes(tier, seed):
                 xs = [v if v > 0 else 1.0 for v in ordinary]
                 for j in rng.sample(range(T), min(T - 2, rng.randint(2, 4))):
                     xs[j] = -float(rng.randint(1, 9))
+            elif kd == "somenan":      # NaN cells in a float cube whose nodata is a number: invalid observations, like negative values
+                xs = [v if v > 0 else 1.0 for v in ordinary]
+                for j in rng.sample(range(T), min(T - 2, rng.randint(1, 3))):
+                    xs[j] = float("nan")
+            elif kd == "nanzeros":     # more than 90 % zeros among the OBSERVATIONS, at most 90 % of all cells once the NaN gaps are counted
+                npos = max(1, T // 12)
+                xs = [0.0] * T
+                idx = rng.sample(range(T), 2 * npos)
+                for j in idx[:npos]:
+                    xs[j] = float(rng.randint(5, 90))
+                for j in idx[npos:]:
+                    xs[j] = float("nan")
             elif kd == "twovals":
                 xs = [rng.choice([3.0, 8.0]) for _ in range(T)]
             if rng.random() < 0.3 and kd not in ("allnodata",):
